@@ -4,6 +4,9 @@ case = {id, g, m, x, a, intrep}
   g = "fmt"  : receiver x (a number), m in implicit | String | json | toString | toFixed | toExponential | toPrecision
   g = "parse": m in Number | plus | minus0 | times1 | parseFloat | parseInt, arguments a
   g = "math" : Math.<m>(a...)
+  g = "key"  : x used as a property name (keyMember o[x], keyComputed {[x]: 1}) or joined ([x].join())
+  g = "lit"  : a[0] is a source spelling of x: its value, the name of {<spelling>: 1}, a getter so named found through [x]
+  g = "long" : like parse, on long digit strings
 out = {"o":"value","v":wire} | {"o":"throw","cls":name} | eval outcome (host, hang, ...)
 """
 from harness import wire
@@ -34,6 +37,25 @@ def render(case, names):
         return "%s(%s)" % (m, args)
     if g == "math":
         return "Math.%s(%s)" % (m, args)
+    if g == "key":                       # the number names a property / an element is joined
+        if m == "keyMember":
+            return "(function () { var o = {}; o[__r] = 1; return Object.keys(o)[0]; })()"
+        if m == "keyComputed":
+            return "Object.keys({[__r]: 1})[0]"
+        if m == "join":
+            return "[__r].join()"
+    if g == "lit":                       # the spelling (a[0], text enumerated by the specification) is written into the source
+        sp = wire.from_units(case["a"][0]["u"])
+        if m == "literal":
+            return sp
+        if m == "keyLiteral":
+            return "Object.keys({%s: 1})[0]" % sp
+        if m == "getterFound":
+            return "({get %s() { return 7; }})[__r]" % sp
+    if g == "long":
+        if m == "plus":
+            return "+" + names[0]
+        return "%s(%s)" % (m, args)
     raise ValueError("group " + g)
 
 
